@@ -282,6 +282,11 @@ pub fn finish(meta: &Meta, ctx: &Ctx, report: &Report) -> i32 {
         }
         owned.machinery_errors = rest;
     }
+    // (a run that was capped before its family wrote a sample still describes what it covered)
+    if owned.samples.is_empty() {
+        let s = json!({"note": "no sample case was recorded before the run ended", "counters": owned.counters, "cap_hit": owned.cap_hit});
+        owned.samples.push(s);
+    }
     let report = &owned;
     let wall = ctx.started.elapsed().as_secs_f64();
     let known = load_known_findings();
